@@ -25,7 +25,7 @@ LEVEL_TEXT = ("Scenarios restricted to the v1 vocabulary (discrete/continuous re
               "be identical. Runs with the grid section omitted / optional sections omitted must equal the explicit ones.")
 LEVEL_NOTE = "The TOML text is produced by the harness's own writer and read by ladim through tomli; with diffusion > 0 the tracker's rng is re-seeded identically by the harness in every run so that outputs are comparable exactly."
 RULE = ("case = scenario spec; renderings yaml2, toml2, yaml1 (+ grid-omitted, sections-omitted variants). Non-trivial: several release times or continuous release and moving water; distinct by spec.")
-MANDATORY = ["v1_file_names_in_files_section", "v1_discrete_with_release_frequency", "configure_dicts_compared", "plugin_gridforce", "version_key_omitted", "yaml2_vs_toml2", "yaml2_vs_yaml1", "grid_omitted_pairs", "wildcard_forcing", "optional_sections_omitted_pairs", "continuous", "discrete", "subgrid", "diffusion_seeded",
+MANDATORY = ["wildcard_names_of_unequal_length", "v1_file_names_in_files_section", "v1_discrete_with_release_frequency", "configure_dicts_compared", "plugin_gridforce", "version_key_omitted", "yaml2_vs_toml2", "yaml2_vs_yaml1", "grid_omitted_pairs", "wildcard_forcing", "optional_sections_omitted_pairs", "continuous", "discrete", "subgrid", "diffusion_seeded",
              "particle_variable_column", "values_compared"]
 ASSUMPTIONS = ["only what the v1 vocabulary can express"]
 MIN_CASES_PER_PROCESS = 4  # several runs share one interpreter: state leaking between runs (module caches, shared defaults) becomes observable
@@ -83,7 +83,7 @@ def spec_for(case: dict[str, Any]) -> dict[str, Any]:
                 diffusion=float(rng.choice([0.0, 0.0, 25.0])), advection=str(rng.choice(["EF", "RK2", "RK4"])),
                 nfiles=nfiles, wildcard=bool(nfiles > 1 or rng.random() < 0.5), reference="2019-12-31T00:00:00" if rng.random() < 0.5 else None,
                 cohort=bool(rng.random() < 0.6), ibm=bool(rng.random() < 0.5), outper_spelling=int(rng.integers(2)), seed=int(rng.integers(10**6)),
-                version_key=bool(rng.random() < 0.5), plugin_gridforce=bool(case["idx"] % 4 == 1))
+                version_key=bool(rng.random() < 0.5), plugin_gridforce=bool(case["idx"] % 4 == 1), odd_names=bool(nfiles > 1 and case["idx"] % 3 != 2))
 
 
 def make_files(sp: dict[str, Any], wd: Path):
@@ -99,7 +99,9 @@ def make_files(sp: dict[str, Any], wd: Path):
     spd = 0.3 * 1000.0 / dt
     w = W.write_world(wd / "world", dict(imax=20, jmax=15, N=3, t0=C.T0, frames=[f * dt for f in fr], files=counts,
                                           vel=dict(kind="gyre", A=spd, kx=0.4, ky=0.45, ratio=0.8, frame_amp=[1.0 + 0.1 * k for k in range(nfr)]),
-                                          metric=dict(kind="uniform", dx=1000.0, dy=1000.0), h=dict(kind="flat", h=80.0)))
+                                          metric=dict(kind="uniform", dx=1000.0, dy=1000.0), h=dict(kind="flat", h=80.0),
+                                          # names of unequal length: the first file in sorted order is not the shortest name
+                                          file_names=(["f_0001_spinup.nc", "f_0002.nc", "f_0010.nc"][:len(counts)] if sp["odd_names"] else None)))
     from netCDF4 import Dataset  # noqa: PLC0415
 
     for fn in w["files"][1:]:
@@ -262,6 +264,7 @@ def run_case(case: dict[str, Any], wd: Path) -> dict[str, Any]:
     sit["continuous" if sp["cont"] else "discrete"] = 1
     sit["subgrid"] = int(sp["subgrid"] is not None)
     sit["wildcard_forcing"] = int(sp["wildcard"])
+    sit["wildcard_names_of_unequal_length"] = int(sp["wildcard"] and sp["odd_names"])
     sit["particle_variable_column"] = int(sp["cohort"])
     sit["diffusion_seeded"] = int(sp["diffusion"] > 0)
 
